@@ -6,6 +6,7 @@ include: real `python -m yalafi.shell --include [--skip] --list-unknown` in a te
 directory over all inclusion graphs on <= 3 files (thorough: exhaustive) and random larger
 ones; oracle = BFS closure model (discovery order, each once, skip pattern, termination).
 """
+import collections
 import itertools
 import os
 import random
@@ -382,6 +383,8 @@ class C18(core.Check):
                                re.escape(pfx) + r'[bc]\.tex', r'\./.*1\.tex'])
         d = tempfile.mkdtemp(dir=self.tmp)
         with_define = False
+        skipped = {(f, g) for f in sorted(files) for g in sorted(set(files[f])) if rnd.random() < .2}
+        nosp = rnd.random() < .3
         try:
             os.makedirs(os.path.join(d, 'sub'), exist_ok=True)
             for f in names:
@@ -389,7 +392,11 @@ class C18(core.Check):
                 for g in files[pfx + f]:
                     mac = rnd.choice(['\\input', '\\include'])
                     ref = g[:-4] if rnd.random() < .6 else g
-                    body.append(rnd.choice(['', 'wtext ']) + mac + rnd.choice(['{%s}', '{%s}', ' {%s}']) % ref)
+                    line = rnd.choice(['', 'wtext ']) + mac + rnd.choice(['{%s}', '{%s}', ' {%s}']) % ref
+                    if (pfx + f, g) in skipped:
+                        # inside a skipped region: not an inclusion, unless the special comments are switched off
+                        line = '%%% LT-SKIP-BEGIN\n' + line + '\n%%% LT-SKIP-END'
+                    body.append(line)
                 # distractors that must not count
                 body.append('%\\input{a}')
                 body.append('\\verb|\\input{b}|')
@@ -404,6 +411,8 @@ class C18(core.Check):
                 with_define = True
             if skip:
                 cmd += ['--skip', skip]
+            if nosp:
+                cmd.append('--no-specials')
             cmd += start
             try:
                 pr = subprocess.run(cmd, capture_output=True, timeout=180, cwd=d, env=env.child_env())
@@ -413,12 +422,18 @@ class C18(core.Check):
         finally:
             shutil.rmtree(d, ignore_errors=True)
         err = pr.stderr.decode('utf-8', 'replace')
-        want = bfs_model(files, start, skip)
+        # a reference inside a skipped region is an edge iff the special comments are switched off
+        eff = files if nosp else {f: [g for g in lst if (f, g) not in skipped] for f, lst in files.items()}
+        want = bfs_model(eff, start, skip)
         cnt = {'include_runs': 1, 'include_' + case['kind']: 1, 'edges': sum(len(v) for v in files.values())}
         if skip:
             cnt['with_skip'] = 1
         if pfx:
             cnt['with_path_prefix'] = 1
+        if skipped:
+            cnt['with_reference_in_skipped_region'] = 1
+        if nosp:
+            cnt['with_no_specials'] = 1
         if with_define:
             cnt['with_define_file'] = 1
         if any(f in files[f] for f in files):
@@ -449,7 +464,7 @@ class C18(core.Check):
 
     def quotas(self, tier):
         q = {'extract_docs': 2000, 'listed_calls': 5000, 'include_runs': 100, 'with_skip': 20, 'extract_with_defs': 300,
-             'with_define_file': 15, 'with_path_prefix': 30,
+             'with_define_file': 15, 'with_path_prefix': 30, 'with_reference_in_skipped_region': 30, 'with_no_specials': 20,
              'with_self_inclusion': 20, 'include_rand': 30}
         for c in ('top', 'unkarg', 'unkenv', 'knownenv', 'removedenv', 'item', 'comment', 'skip', 'verb', 'verbatim', 'group',
                   'cell', 'usermacarg'):
